@@ -351,6 +351,9 @@ def main(run):
     # the summary table of dassh.out through which a user reads this property (vf/props/reports.py)
     from . import reports
     run.explore('report-interasm', reports.cases_interasm(run.tier), reports.run_interasm, budget_s=300)
+    # the csv dump of this property's field: every row is the recorded field of that assembly at that plane
+    from . import reports as _rep
+    run.explore('report-dumps', _rep.cases_dumps(run.tier), _rep.run_dumps_C02, budget_s=300)
     for k in ('shared_cells', 'mixed_mesh_layouts', 'layouts_with_vacancy', 'conservative_class'):
         if not run.extra.get(k):
             run.violations.append(dict(violation('vacuous-alphabet', {'what': k}, 'alphabet never produced ' + k),
